@@ -15,6 +15,7 @@
   * the parametric theorems (all N, all J, all schedules) are in the second half of the file.
 -/
 import UnifexModel.Proto.ScopeV2
+import UnifexModel.Proto.ScopeCounter
 
 namespace Unifex.Props.C08
 open Unifex.Core
@@ -126,5 +127,134 @@ example : ∃ s, Reach (sys cfgLateNest) s ∧ final cfgLateNest s = true ∧
     exact ⟨s, runChoices_reach _ _ _ _ _ Reach.init hr, h.1.1, h.1.2, h.2⟩
 
 end V2
+
+/-! ## Parametric theorems: N workers, J joiners, every schedule (invariant induction)
+
+  Model: Proto/ScopeCounter.lean — the step relation of Proto/ScopeV2 for worker `i < N` running
+  `nest; start; complete` and joiner `j < J` running `join`, each on its own thread (see the header
+  of that file for what exactly is abstracted).  Worker pc 3..6 = admitted and the scope reference
+  not yet released (`counted`), 7 = committed to `evt_.set()`, 9 = released, 10 = rejected. -/
+section Parametric
+open Unifex.Proto.ScopeCounter
+
+/-- The use count is exactly the number of admitted operations whose reference has not been
+    released yet: work admitted before the close is counted, however admission races with the
+    close and with other admissions/completions. -/
+theorem admitted_before_close_counted {N J : Nat} {s : St} (h : Reach (sys N J) s) :
+    s.count = outstanding s N := (invA h).cnt_eq
+
+/-- A join receiver has completed only if the scope is closed, the count is zero and no admitted
+    operation is still outstanding — i.e. every admitted operation has completed and released. -/
+theorem join_only_when_closed_and_zero {N J : Nat} {s : St} (h : Reach (sys N J) s) (j : Nat)
+    (hd : 1 ≤ s.jdone j) :
+    s.ended = true ∧ s.count = 0 ∧ ∀ i, i < N → counted (s.wpc i) = false := by
+  have ha := invA h
+  have hs := ha.done_sig j hd
+  have hc := ha.sig_closed hs
+  refine ⟨hc.1, hc.2, fun i hi => ?_⟩
+  have h0 : outstanding s N = 0 := by rw [← ha.cnt_eq]; exact hc.2
+  exact cnt_zero _ N h0 i hi
+
+/-- Every join completes at most once, however many joins race. -/
+theorem join_at_most_once {N J : Nat} {s : St} (h : Reach (sys N J) s) (j : Nat) :
+    s.jdone j ≤ 1 := ((invB h).done_pc j).2.2
+
+/-- An operation whose nest() began when the scope was already closed is never admitted (never
+    counted, never started): it is still before its CAS having read "ended", or already rejected. -/
+theorem nest_after_close_never_started {N J : Nat} {s : St} (h : Reach (sys N J) s) (i : Nat)
+    (hl : s.wlate i = true) :
+    s.wpc i = 1 ∨ (s.wpc i = 2 ∧ s.wseenE i = true) ∨ s.wpc i = 10 := ((invA h).late i hl).2
+
+/-- … and the only step it can take from pc 2 is the rejection (completes with done). -/
+theorem nest_after_close_is_done {s s' : St} {i : Nat} (hpc : s.wpc i = 2) (hE : s.wseenE i = true)
+    (hs : stepW s i = some s') : s'.wpc i = 10 := by
+  unfold stepW at hs
+  simp [hpc, hE] at hs
+  subst hs
+  simp
+
+/-- No thread ever blocks inside the scope: a state without successor is one in which every worker
+    has finished (released or rejected) and every joiner has returned from starting its join. -/
+theorem no_deadlock {N J : Nat} {s : St} (h : (sys N J).next s = []) :
+    (∀ i, i < N → 9 ≤ s.wpc i) ∧ (∀ j, j < J → 6 ≤ s.jpc j) := terminal_of_no_next h
+
+/-- The join does fire: once all workers are finished and all joiners have returned from start,
+    every join receiver has been completed exactly once (no lost wake-up, no double completion). -/
+theorem join_fires_when_closed_and_zero {N J : Nat} {s : St} (h : Reach (sys N J) s)
+    (hw : ∀ i, i < N → 9 ≤ s.wpc i) (hj : ∀ j, j < J → 6 ≤ s.jpc j) (j : Nat) (hjJ : j < J) :
+    s.jdone j = 1 := by
+  have ha := invA h
+  have hb := invB h
+  have hc := invC h
+  have he := invE h
+  have hle := ((hb.done_pc j).2.2)
+  have h67 : s.jpc j = 6 ∨ s.jpc j = 7 := by have := hj j hjJ; have := he.jle j; omega
+  rcases h67 with h6 | h7
+  · by_cases hd : s.jdone j = 0
+    · exfalso
+      have hcount : s.count = 0 := by
+        rw [ha.cnt_eq]
+        exact cnt_false _ N (fun k hk => by
+          have h9 := hw k hk
+          have h10 := he.wle k
+          simp only [counted, decide_eq_false_iff_not]; omega)
+      have hended : s.ended = true := ha.jended j (by omega)
+      have notodoW : ∀ i, s.wtodo i = [] := by
+        intro i
+        by_cases hne : s.wtodo i = []
+        · exact hne
+        · have h8 := (hb.wtodo_set i hne).1
+          by_cases hi : i < N
+          · have := hw i hi; omega
+          · have := he.wout i (by omega); omega
+      have notodoJ : ∀ k, s.jtodo k = [] := by
+        intro k
+        by_cases hne : s.jtodo k = []
+        · exact hne
+        · have h3 := (hb.jtodo_set k hne).1
+          by_cases hk : k < J
+          · have := hj k hk; omega
+          · have := he.jout k (by omega); omega
+      have hmem : j ∈ s.waiters := by
+        rcases hb.pending j h6 hd with hm | ⟨i, hm⟩ | ⟨k, hm⟩
+        · exact hm
+        · rw [notodoW i] at hm; cases hm
+        · rw [notodoJ k] at hm; cases hm
+      have hsig : s.sig = false := by
+        cases hs : s.sig with
+        | false => rfl
+        | true => rw [hb.sig_nowait hs] at hmem; cases hmem
+      rcases hc hended hcount hsig with ⟨i, hi, h7⟩ | ⟨k, hk, h2⟩
+      · have := hw i hi; omega
+      · have := hj k hk; omega
+    · omega
+  · exact ((hb.done_pc j).2.1) h7
+
+/-- With a single closer (one `end_scope` call in the whole life of the scope) a completing
+    operation never touches the scope after the join has completed: when the join receiver has
+    its completion no worker is still about to call `evt_.set()`.  (False for two closers:
+    `v2_two_joins_late_touch`, `C08_v1.v1_cleanup_late_touch`.) -/
+theorem single_join_no_late_touch {N : Nat} {s : St} (h : Reach (sys N 1) s)
+    (hd : 1 ≤ s.jdone 0) (i : Nat) : s.wpc i ≠ 7 := by
+  intro h7
+  have hs := (invA h).done_sig 0 hd
+  have := ((invD h).claim i h7).1
+  rw [hs] at this
+  cases this
+
+/-- non-vacuity of the parametric model: with one worker and one joiner a state is reachable in
+    which the worker was admitted, ran and released, and the join completed. -/
+example : ∃ s, Reach (sys 1 1) s ∧ s.wpc 0 = 9 ∧ s.jdone 0 = 1 := by
+  have h : (match runChoices (sys 1 1) (sys 1 1).init [0, 0, 0, 0, 0, 0, 1, 1, 0, 0, 0, 0] with
+      | some (_, s) => decide (s.wpc 0 = 9) && decide (s.jdone 0 = 1) | none => false) = true := by
+    decide +kernel
+  cases hr : runChoices (sys 1 1) (sys 1 1).init [0, 0, 0, 0, 0, 0, 1, 1, 0, 0, 0, 0] with
+  | none => simp [hr] at h
+  | some p =>
+    obtain ⟨ls, s⟩ := p
+    simp only [hr, Bool.and_eq_true, decide_eq_true_eq] at h
+    exact ⟨s, runChoices_reach _ _ _ _ _ Reach.init hr, h.1, h.2⟩
+
+end Parametric
 
 end Unifex.Props.C08
